@@ -121,6 +121,13 @@ func (fc *FnCtx) Generate() (err error) {
 	// SSA value is defined), so that a later access through the same value is an access after the hand-off
 	fc.sentOf = map[ssa.Value][]string{}
 	if fc.con.Opts["lockcheck"] != "" {
+		if fc.con.Opts["mayclose"] == "" {
+			// "this function closes no channel" is a claim of its own: checked at every return, so that it
+			// exists (and is in the baseline) even while the function has no close site at all
+			fc.ghostSort["closedany"] = sBool
+			fc.ghost["closedany"] = "false"
+			fc.ghost0["closedany"] = "false"
+		}
 		fc.ghostSort["handedobj"] = arrSort(sBool)
 		fc.ghost["handedobj"] = "((as const (Array Int Bool)) false)"
 		fc.ghost0["handedobj"] = "((as const (Array Int Bool)) false)"
@@ -681,7 +688,7 @@ func (fc *FnCtx) enterLoop(li *loopInfo) {
 	h := &Heap{regs: map[string]string{}}
 	ord := li.ordinal
 	h.lazy = func(r, s string) string {
-		if fc.immutableRegion(r) {
+		if fc.immutableRegion(r) && !li.unfrozen[r] {
 			return pre.get(r, s)
 		}
 		if li.modAll || li.modRegs[r] {
@@ -862,6 +869,10 @@ func (fc *FnCtx) computeLoopMods(li *loopInfo) {
 				}
 			}
 			switch x := in.(type) {
+			case *ssa.Call:
+				if b, ok := x.Call.Value.(*ssa.Builtin); ok && b.Name() == "close" {
+					li.modRegs["ghost.closedany"] = true
+				}
 			case *ssa.Send:
 				if _, isPtr := x.X.Type().Underlying().(*types.Pointer); isPtr {
 					li.modRegs["ghost.handedobj"] = true
@@ -894,6 +905,15 @@ func (fc *FnCtx) callMods(c *ssa.CallCommon, li *loopInfo) {
 	name := fc.calleeName(c)
 	if special(name) {
 		return
+	}
+	if callee := c.StaticCallee(); callee != nil && callee.Pkg == fc.fn.Pkg {
+		for r := range e.writersReachable(callee) {
+			if li.unfrozen == nil {
+				li.unfrozen = map[string]bool{}
+			}
+			li.unfrozen[r] = true
+			li.modRegs[r] = true
+		}
 	}
 	con := e.cs.Funcs[name]
 	if con != nil && con.HasAssigns {
